@@ -69,6 +69,7 @@ type FuncContract struct {
 	GhostRets   []GhostLoopVar // ghostret $v := e: ghost statement executed at every return (results are in scope)
 	GhostSets   []GhostLoopVar // ghostset $v := e: ghost statement executed on entry of the function (scalar ghost variables)
 	UnblocksOn  []Expr         // every blocking channel operation must be able to fire a receive on one of these channels
+	UnblocksAlso [][]Expr      // further unblocks_on lines: each is an independent requirement of the same kind
 	Durable     bool           // a durable step: callers assert their crash invariant after it
 	Crash       []Clause       // crashstates: holds at every crash point inside the function
 }
@@ -464,7 +465,11 @@ func ParseSpecFile(path string, pkgPath string) (*SpecFile, error) {
 			if err != nil {
 				return nil, err
 			}
-			cur.UnblocksOn = append(cur.UnblocksOn, locs...)
+			if len(cur.UnblocksOn) == 0 {
+				cur.UnblocksOn = append(cur.UnblocksOn, locs...)
+			} else {
+				cur.UnblocksAlso = append(cur.UnblocksAlso, locs)
+			}
 		case "durable":
 			cur.Durable = true
 		case "single_transaction":
